@@ -286,7 +286,7 @@ class Folder:
         out = []
         for x in elts:
             if isinstance(x, ast.Starred):
-                out.extend(self.ev(x.value, env))
+                out.extend(self.iterate(self.ev(x.value, env)))  # sets are unpacked in the interpreter's set order
             else:
                 out.append(self.ev(x, env))
         return out
